@@ -142,6 +142,14 @@ def task(p, cse, tier, seed):
             path = write_replay(PID, {"key": key_base + "/purity", "info": {"program": p.id, "cse": cse}, "inputs": e, "result": {k: got[k] for k in ("inputs_unmodified", "repeat_identical")}})
             part.violation(key_base + "/purity", f"process_model modifies its inputs or is not repeatable: {got['inputs_unmodified']=}, {got['repeat_identical']=}", path)
         conc.append((e, got))
+        # concrete differential at the seeded point (decides changes that leave the encodable fragment)
+        f_, Pn_ = spec_float(p, e)
+        badc = [ss[i] for i in range(n) if not approx_equal(float(got["state"][i]), f_[i])] + [f"P[{ss[i]},{ss[j]}]" for i in range(n) for j in range(n) if not approx_equal(float(got["cov"][i, j]), float(Pn_[i, j]), abs_=1e-8)]
+        part.record(Q("sat" if badc else "unsat", None, 0.0, ""), f"{key_base}: real prediction == specification at a seeded point (concrete)")
+        if badc:
+            path = write_replay(PID, {"key": key_base + "/seeded-point", "info": {"program": p.id, "cse": cse}, "inputs": e})
+            part.violation(key_base + "/seeded-point", f"process_model differs from f / G P G^T + V M V^T at the seeded point {e}: {badc[:4]}", path)
+            return part.d
 
     env2 = pyh.second_env(env, keep=p.calibration)
     Psym2, Pvars2 = pyh.sym_cov(p.state, prefix="P2")
@@ -311,7 +319,6 @@ def task(p, cse, tier, seed):
 
         # inputs unmodified: every element of the inputs is the same term before and after the call
         same = all(lift(a).eq(lift(b)) for A, B in zip(snap, after) for a, b in zip(A.reshape(-1), B.reshape(-1)))
-        from .common import Q
 
         part.record(Q("unsat" if same else "sat", None, 0.0, ""), f"{key_base}/inputs-unmodified (term identity)")
         if not same:
